@@ -19,6 +19,7 @@ type node struct {
 	mode fs.FileMode
 	link string // non-empty: a symbolic link to this (absolute or relative) target
 	mt   int64  // modification time (logical seconds): set when the node is created or written, like the kernel does
+	ino  uint64 // assigned on first use; two paths that hold the same *node are hard links of one file
 }
 
 // World is one simulated process environment. W == nil means "not simulating":
@@ -97,8 +98,32 @@ func NewWorld(spec *WorldSpec) *World {
 			w.fs[filepath.Clean(f.Path)] = &node{link: f.Link, mode: fs.ModeSymlink | 0o777}
 		}
 	}
+	for _, f := range spec.Files {
+		if f.HardLink != "" {
+			w.PutHardLink(f.Path, f.HardLink)
+		}
+	}
 	w.put(tempDirOf(w.Epoch), true, nil)
 	return w
+}
+
+// PutHardLink makes p another name of the regular file at target (same node).
+func (w *World) PutHardLink(p, target string) {
+	p, target = filepath.Clean(p), filepath.Clean(target)
+	if n, ok := w.fs[target]; ok && !n.dir && n.link == "" {
+		w.mkparents(p)
+		w.fs[p] = n
+	}
+}
+
+var inoCounter uint64 = 1000
+
+func inoOf(n *node) uint64 {
+	if n.ino == 0 {
+		inoCounter++
+		n.ino = inoCounter
+	}
+	return n.ino
 }
 
 func (w *World) mkparents(p string) {
@@ -175,11 +200,17 @@ func (w *World) sortedPaths() []string {
 // Image returns the current file-system image in sorted order.
 func (w *World) Image() []FileSpec {
 	out := []FileSpec{}
+	seen := map[*node]string{}
 	for _, k := range w.sortedPaths() {
 		if k == "/" {
 			continue
 		}
 		n := w.fs[k]
+		if first, ok := seen[n]; ok && !n.dir && n.link == "" {
+			out = append(out, FileSpec{Path: k, HardLink: first, Data: append([]byte(nil), n.data...)})
+			continue
+		}
+		seen[n] = k
 		out = append(out, FileSpec{Path: k, Dir: n.dir, Data: append([]byte(nil), n.data...), Link: n.link})
 	}
 	return out
@@ -546,6 +577,7 @@ type fileInfo struct {
 	size int64
 	mode fs.FileMode
 	mt   time.Time
+	id   *node // identity of the file (nil for synthetic entries): what os.SameFile compares
 }
 
 func (fi fileInfo) Name() string       { return fi.name }
@@ -553,7 +585,12 @@ func (fi fileInfo) Size() int64        { return fi.size }
 func (fi fileInfo) Mode() fs.FileMode  { return fi.mode }
 func (fi fileInfo) ModTime() time.Time { return fi.mt }
 func (fi fileInfo) IsDir() bool        { return fi.mode.IsDir() }
-func (fi fileInfo) Sys() any           { return nil }
+func (fi fileInfo) Sys() any {
+	if fi.id == nil {
+		return nil
+	}
+	return &syscall.Stat_t{Ino: inoOf(fi.id), Dev: 2049, Nlink: 1, Size: fi.size}
+}
 
 func (w *World) now() time.Time {
 	return time.Unix(w.Epoch+int64(w.IOSeq), int64(w.Ticks%1_000_000_000)).UTC()
@@ -583,7 +620,7 @@ func (w *World) stat(name string) (fs.FileInfo, error) {
 	if n.dir {
 		ev.Digest = "dir"
 	}
-	return fileInfo{name: filepath.Base(p), size: int64(len(n.data)), mode: n.mode, mt: time.Unix(n.mt, 0).UTC()}, nil
+	return fileInfo{name: filepath.Base(p), size: int64(len(n.data)), mode: n.mode, mt: time.Unix(n.mt, 0).UTC(), id: n}, nil
 }
 
 func (w *World) readFile(name string) ([]byte, error) {
@@ -911,7 +948,7 @@ func (w *World) readDir(name string) ([]fs.DirEntry, error) {
 	for _, k := range w.sortedPaths() {
 		if k != "/" && strings.HasPrefix(k, pre) && !strings.Contains(k[len(pre):], "/") {
 			c := w.fs[k]
-			out = append(out, dirEntry{fileInfo{name: k[len(pre):], size: int64(len(c.data)), mode: c.mode, mt: w.now()}})
+			out = append(out, dirEntry{fileInfo{name: k[len(pre):], size: int64(len(c.data)), mode: c.mode, mt: w.now(), id: c}})
 		}
 	}
 	ev.N = len(out)
